@@ -553,7 +553,41 @@ def decisionBudget : List (String × String × Nat) :=
    ("iana", "if", 1),
    ("iana", "match", 1),
    ("iana", "==", 1),
-   ("iana", "lt", 4)]
+   ("iana", "lt", 4),
+   ("common", "call:from_reader", 1),
+   ("common", "call:into_writer", 1),
+   ("common", "call:signum", 1),
+   ("common", "call:then", 1),
+   ("common", "call:unwrap", 1),
+   ("header", "call:clear", 1),
+   ("header", "call:contains", 1),
+   ("header", "call:count", 1),
+   ("header", "call:insert", 1),
+   ("header", "call:matches", 1),
+   ("header", "call:remove", 1),
+   ("header", "call:trim", 1),
+   ("sign", "call:expect", 1),
+   ("sign", "call:into_writer", 1),
+   ("sign", "call:remove", 1),
+   ("sign", "call:signature", 1),
+   ("sign", "call:unwrap", 1),
+   ("mac", "call:expect", 1),
+   ("mac", "call:into_writer", 1),
+   ("mac", "call:remove", 1),
+   ("mac", "call:tag", 1),
+   ("mac", "call:unwrap", 1),
+   ("encrypt", "call:ciphertext", 1),
+   ("encrypt", "call:expect", 1),
+   ("encrypt", "call:into_writer", 1),
+   ("encrypt", "call:remove", 1),
+   ("encrypt", "call:unwrap", 1),
+   ("key", "call:contains", 1),
+   ("key", "call:insert", 1),
+   ("key", "call:sort_by", 1),
+   ("context", "call:remove", 1),
+   ("context", "call:reverse", 1),
+   ("cwt", "call:contains", 1),
+   ("cwt", "call:insert", 1)]
 
 def ianaMacroHash : String := "3986b2136fa3151f"
 
